@@ -8,7 +8,10 @@ use crate::trace::{Outcome, Trace};
 use serde_json::{json, Value};
 use std::process::ExitCode;
 
-const VERIF: &str = "/verif";
+/// Root of the verification tree (`VERIF_ROOT`, set by `./check`; `/verif` by default).
+pub fn verif_root() -> String {
+    std::env::var("VERIF_ROOT").unwrap_or_else(|_| "/verif".to_string())
+}
 
 fn env_u64(name: &str) -> Option<u64> {
     std::env::var(name).ok().and_then(|v| v.trim().parse().ok())
@@ -34,6 +37,8 @@ pub struct Known {
 /// `/verif/known_findings.txt`: `finding: property=<id> class=<class> sig=<hex> <what fails>` lines
 /// suppress exactly that minimal trace; `fixed:` lines are history and suppress nothing.
 pub fn load_known() -> Vec<Known> {
+    #[allow(non_snake_case)]
+    let VERIF = verif_root();
     let mut v = Vec::new();
     let Ok(text) = std::fs::read_to_string(format!("{VERIF}/known_findings.txt")) else { return v };
     for line in text.lines() {
@@ -115,6 +120,8 @@ fn write_evidence(
     extra: Value,
     samples: Vec<Value>,
 ) -> std::io::Result<()> {
+    #[allow(non_snake_case)]
+    let VERIF = verif_root();
     let st = &batch.stats;
     let evals = st.runs + batch.systematic_evals;
     let hours = (batch.wall_s / 3600.0).max(1e-9);
@@ -171,6 +178,8 @@ fn write_evidence(
 }
 
 fn write_replay(meta: &Meta, original: &Trace, min: &Trace, o: &Outcome, execs: u64) -> std::io::Result<String> {
+    #[allow(non_snake_case)]
+    let VERIF = verif_root();
     std::fs::create_dir_all(format!("{VERIF}/replays"))?;
     let path = format!("{VERIF}/replays/{}-{}-{}.json", meta.prop.id, original.seed, original.run);
     let v = o.violation.as_ref().unwrap();
@@ -192,7 +201,7 @@ fn write_replay(meta: &Meta, original: &Trace, min: &Trace, o: &Outcome, execs: 
             "minimised_faults": min.faults.len(),
         },
         "original_trace": original.to_json(),
-        "replay_cmd": format!("/verif/check replay {path}"),
+        "replay_cmd": format!("{VERIF}/check replay {path}"),
     });
     std::fs::write(&path, serde_json::to_string_pretty(&doc).unwrap() + "\n")?;
     Ok(path)
@@ -208,6 +217,8 @@ fn env_budget(tier: &str) -> (u64, u64) {
 }
 
 fn env_replay_doc(prop: &str, mode: &str, v: &Value, seed: u64) -> (String, Value) {
+    #[allow(non_snake_case)]
+    let VERIF = verif_root();
     let run = v["run"].as_u64().unwrap_or(0);
     let path = format!("{VERIF}/replays/{prop}-env-{seed}-{}.json", if run == u64::MAX { "sweep".to_string() } else { run.to_string() });
     let doc = json!({
@@ -222,13 +233,15 @@ fn env_replay_doc(prop: &str, mode: &str, v: &Value, seed: u64) -> (String, Valu
         "event_log": v["event_log"],
         "minimisation": {"executions": v["minimisation_executions"], "original_ops": v["original_ops"], "minimised_ops": v["ops"].as_array().map(|a| a.len())},
         "origin": {"verif_seed": seed, "run": v["run"]},
-        "replay_cmd": format!("/verif/check replay {path}"),
+        "replay_cmd": format!("{VERIF}/check replay {path}"),
     });
     (path, doc)
 }
 
 /// Report an envsim violation unless it is a listed known finding.  Returns true if reported.
 fn report_env_violation(prop: &str, mode: &str, v: &Value, seed: u64, known_hits: &mut Vec<String>) -> Result<bool, String> {
+    #[allow(non_snake_case)]
+    let VERIF = verif_root();
     let class = v["class"].as_str().unwrap_or("");
     let sig = v["signature"].as_str().unwrap_or("");
     if let Some(k) = load_known().iter().find(|k| k.prop == prop && k.class == class && k.sig == sig) {
@@ -265,6 +278,8 @@ fn env_summary(b: &crate::envsim::EnvBatch) -> Value {
 }
 
 pub fn cmd_run_c09(tier_name: &str) -> ExitCode {
+    #[allow(non_snake_case)]
+    let VERIF = verif_root();
     let seed = verif_seed();
     let tier = if tier_name == "thorough" { "thorough" } else { "quick" };
     let (hist, _) = env_budget(tier);
@@ -350,6 +365,8 @@ pub fn cmd_run_c09(tier_name: &str) -> ExitCode {
 }
 
 pub fn cmd_run(id: &str, tier_name: &str) -> ExitCode {
+    #[allow(non_snake_case)]
+    let VERIF = verif_root();
     if id == "C09" {
         return cmd_run_c09(tier_name);
     }
